@@ -1,5 +1,6 @@
 import PPProofs.Props.C18
 import PPProofs.Lemmas.RegexIpv4
+import PPProofs.Lemmas.RegexCI
 /-!
 # C18 (continued) — language theorems for `identifier` and `ipv4_address`
 
@@ -264,5 +265,201 @@ example : ipv4Ast.Accepts "192.168.0.25".toList := (ipv4_language _).2
   ⟨"192".toList, "168".toList, "0".toList, "25".toList, by decide,
     ⟨by decide, Or.inr (Or.inr (Or.inl ⟨'9', '2', rfl⟩))⟩, ⟨by decide, Or.inr (Or.inr (Or.inl ⟨'6', '8', rfl⟩))⟩,
     ⟨by decide, Or.inl rfl⟩, ⟨by decide, Or.inr (Or.inl rfl)⟩⟩
+
+/-! ## ieee_float  (`(?i:[+-]?(?:(?:\d+\.?\d*(?:e[+-]?\d+)?)|nan|inf(?:inity)?))`)
+
+The numeric alternative is `fnumber`'s body up to the spelling of the character sets (`Sim`), so
+`fnumber_body_language` is reused; `nan` / `inf` / `infinity` are case-insensitive words.  Case folding is the
+model's (`lowerC`: ASCII only — CPython's extra IGNORECASE equivalences such as U+0131 for `i` are not modelled). -/
+
+def ieeeNum : Re :=
+  seq (plus digit) (seq (opt (liti '.')) (seq (star digit) (opt (seq (liti 'e') (seq signOptI (plus digit))))))
+def ieeeNan : Re := ciWordThen ['n', 'a'] (liti 'n')
+def ieeeInity : Re := ciWordThen ['i', 'n', 'i', 't'] (liti 'y')
+def ieeeInf : Re := ciWordThen ['i', 'n', 'f'] (opt ieeeInity)
+def ieeeBody : Re := alt fnumberBody (alt ieeeNan ieeeInf)
+
+theorem ieeeFloatAst_eq : ieeeFloatAst = seq signOptI (alt ieeeNum (alt ieeeNan ieeeInf)) := rfl
+
+theorem ieeeNum_sim : Sim ieeeNum fnumberBody := by
+  unfold ieeeNum fnumberBody expoPart signOpt signOptI opt liti lit cls
+  exact .seq (.refl _) (.seq (.rep _ _ _ (.set _ _ has_ci_dot)) (.seq (.refl _)
+    (.rep _ _ _ (.seq (.set _ _ has_ci_e) (.seq (.rep _ _ _ (.set _ _ has_ci_sign)) (.refl _))))))
+
+theorem ieee_sim : Sim ieeeFloatAst (seq signOpt ieeeBody) := by
+  rw [ieeeFloatAst_eq]
+  unfold ieeeBody
+  refine .seq ?_ (.alt ieeeNum_sim (.refl _))
+  unfold signOptI signOpt opt cls
+  exact .rep _ _ _ (.set _ _ has_ci_sign)
+
+theorem ends_ciWord (w : List Char) (a : Char) (hw : ∀ x ∈ w, x ∈ ciLetters) (ha : a ∈ ciLetters) (s : List Char) :
+    (ciWordThen w (liti a)).ends s = (stripCI (w ++ [a]) s).toList := by
+  unfold liti
+  rw [ends_ciWordThen _ w hw, stripCI_append]
+  cases stripCI w s <;> simp [ends_ci_letter a ha]
+
+theorem nan_ends (s : List Char) : ieeeNan.ends s = (stripCI ['n', 'a', 'n'] s).toList :=
+  ends_ciWord ['n', 'a'] 'n' (by decide) (by decide) s
+
+theorem inity_ends (s : List Char) : ieeeInity.ends s = (stripCI ['i', 'n', 'i', 't', 'y'] s).toList :=
+  ends_ciWord ['i', 'n', 'i', 't'] 'y' (by decide) (by decide) s
+
+theorem inf_ends (s : List Char) :
+    ieeeInf.ends s = match stripCI ['i', 'n', 'f'] s with
+      | none => []
+      | some e => (stripCI ['i', 'n', 'i', 't', 'y'] e).toList ++ [e] := by
+  unfold ieeeInf
+  rw [ends_ciWordThen _ _ (by decide)]
+  cases stripCI ['i', 'n', 'f'] s with
+  | none => rfl
+  | some e =>
+    simp only
+    rw [ends_opt_progress ieeeInity e, inity_ends]
+    intro e' he'
+    rw [inity_ends] at he'
+    have : stripCI ['i', 'n', 'i', 't', 'y'] e = some e' := by
+      cases h : stripCI ['i', 'n', 'i', 't', 'y'] e with
+      | none => rw [h] at he'; simp at he'
+      | some z => rw [h] at he'; simp at he'; rw [he']
+    have := stripCI_length _ _ _ this
+    simp at this; omega
+
+theorem fnumber_noStart (c : Char) (t : List Char) (h : dset.has c = false) : fnumberBody.ends (c :: t) = [] := by
+  unfold fnumberBody plus digit
+  simp only [Re.ends]
+  have h0 : repEnds (fun x => Re.ends (.set dset) x) true ((c :: t).length + 1) 1 none (c :: t) = [] := by
+    rw [repEnds_set dset.has _ (by simp [Re.ends]) (by intro c t; simp [Re.ends]) _ _ _ _ (by omega)]
+    simp [repSet, h]
+  simp only [Re.ends] at h0
+  rw [h0]; rfl
+
+theorem lowerC_digit (c : Char) (h : IsDigit c) : lowerC c = c := by
+  unfold lowerC
+  rw [if_neg]
+  rintro ⟨a, _⟩
+  have := char_le_toNat a
+  have := char_le_toNat h.2
+  simp at *
+  omega
+
+theorem notDigit_of_lower (c a : Char) (h : lowerC c = a) (ha : dset.has a = false) : dset.has c = false := by
+  cases hh : dset.has c with
+  | false => rfl
+  | true =>
+    have := lowerC_digit c ((has_digit c).1 hh)
+    rw [this] at h; subst h; rw [hh] at ha; exact absurd ha (by simp)
+
+/-- the unsigned part: an `fnumber` body, or one of the words nan / inf / infinity in any letter case -/
+def IsIeeeBody (x : List Char) : Prop :=
+  IsUFnumber x ∨ x.map lowerC = ['n', 'a', 'n'] ∨ x.map lowerC = ['i', 'n', 'f'] ∨
+    x.map lowerC = ['i', 'n', 'f', 'i', 'n', 'i', 't', 'y']
+
+/-- documented syntax: optional sign, then a number (digits, optional `.` digits*, optional exponent with `e`/`E`)
+    or nan / inf / infinity case-insensitively -/
+def IsIeeeFloat (s : List Char) : Prop :=
+  ∃ sg x, s = sg ++ x ∧ (sg = [] ∨ ∃ c, IsSign c ∧ sg = [c]) ∧ IsIeeeBody x
+
+theorem ends_alt (a b : Re) (s : List Char) : (alt a b).ends s = a.ends s ++ b.ends s := by simp only [Re.ends]
+
+theorem map_lower_cons (x : List Char) (a : Char) (w : List Char) (h : x.map lowerC = a :: w) :
+    ∃ c t, x = c :: t ∧ lowerC c = a ∧ t.map lowerC = w := by
+  cases x with
+  | nil => simp at h
+  | cons c t => simp at h; exact ⟨c, t, rfl, h.1, h.2⟩
+
+theorem ieee_body_language (x : List Char) : ieeeBody.Accepts x ↔ IsIeeeBody x := by
+  unfold ieeeBody Re.Accepts
+  rw [ends_alt, ends_alt, nan_ends, inf_ends]
+  constructor
+  · intro h
+    rw [List.head?_append] at h
+    cases hA : (fnumberBody.ends x).head? with
+    | some e =>
+      rw [hA] at h; simp at h; subst h
+      exact Or.inl ((fnumber_body_language x).1 hA)
+    | none =>
+      rw [hA] at h
+      simp only [Option.none_or] at h
+      cases hN : stripCI ['n', 'a', 'n'] x with
+      | some e =>
+        rw [hN] at h; simp at h; subst h
+        obtain ⟨p, hp, hl⟩ := (stripCI_some _ _ _).1 hN
+        right; left; rw [hp]; simpa using hl
+      | none =>
+        rw [hN] at h
+        simp only [Option.toList_none, List.nil_append] at h
+        cases hI : stripCI ['i', 'n', 'f'] x with
+        | none => rw [hI] at h; simp at h
+        | some e =>
+          rw [hI] at h
+          simp only at h
+          obtain ⟨p, hp, hl⟩ := (stripCI_some _ _ _).1 hI
+          cases hY : stripCI ['i', 'n', 'i', 't', 'y'] e with
+          | some e' =>
+            rw [hY] at h; simp at h; subst h
+            obtain ⟨p', hp', hl'⟩ := (stripCI_some _ _ _).1 hY
+            right; right; right
+            rw [hp, hp']; simp [hl, hl']
+          | none =>
+            rw [hY] at h; simp at h; subst h
+            right; right; left
+            rw [hp]; simpa using hl
+  · have hn : dset.has 'n' = false := by decide
+    have hi : dset.has 'i' = false := by decide
+    rintro (h | h | h | h)
+    · have := (fnumber_body_language x).2 h
+      unfold Re.Accepts at this
+      rw [List.head?_append, this]; rfl
+    · obtain ⟨c1, t1, rfl, h1, h⟩ := map_lower_cons _ _ _ h
+      obtain ⟨c2, t2, rfl, h2, h⟩ := map_lower_cons _ _ _ h
+      obtain ⟨c3, t3, rfl, h3, h⟩ := map_lower_cons _ _ _ h
+      have : t3 = [] := by simpa using h
+      subst this
+      rw [fnumber_noStart c1 _ (notDigit_of_lower c1 _ h1 hn)]
+      simp [stripCI, h1, h2, h3]
+    · obtain ⟨c1, t1, rfl, h1, h⟩ := map_lower_cons _ _ _ h
+      obtain ⟨c2, t2, rfl, h2, h⟩ := map_lower_cons _ _ _ h
+      obtain ⟨c3, t3, rfl, h3, h⟩ := map_lower_cons _ _ _ h
+      have : t3 = [] := by simpa using h
+      subst this
+      rw [fnumber_noStart c1 _ (notDigit_of_lower c1 _ h1 hi)]
+      simp [stripCI, h1, h2, h3]
+    · obtain ⟨c1, t1, rfl, h1, h⟩ := map_lower_cons _ _ _ h
+      obtain ⟨c2, t2, rfl, h2, h⟩ := map_lower_cons _ _ _ h
+      obtain ⟨c3, t3, rfl, h3, h⟩ := map_lower_cons _ _ _ h
+      obtain ⟨c4, t4, rfl, h4, h⟩ := map_lower_cons _ _ _ h
+      obtain ⟨c5, t5, rfl, h5, h⟩ := map_lower_cons _ _ _ h
+      obtain ⟨c6, t6, rfl, h6, h⟩ := map_lower_cons _ _ _ h
+      obtain ⟨c7, t7, rfl, h7, h⟩ := map_lower_cons _ _ _ h
+      obtain ⟨c8, t8, rfl, h8, h⟩ := map_lower_cons _ _ _ h
+      have : t8 = [] := by simpa using h
+      subst this
+      rw [fnumber_noStart c1 _ (notDigit_of_lower c1 _ h1 hi)]
+      simp [stripCI, h1, h2, h3, h4, h5, h6, h7, h8]
+
+theorem ieee_noSign : ∀ c t, IsSign c → ieeeBody.ends (c :: t) = [] := by
+  intro c t h
+  unfold ieeeBody
+  rw [ends_alt, ends_alt, nan_ends, inf_ends, fnumber_noSign c t h]
+  have a1 : lowerC '+' ≠ 'n' := by decide
+  have a2 : lowerC '+' ≠ 'i' := by decide
+  have a3 : lowerC '-' ≠ 'n' := by decide
+  have a4 : lowerC '-' ≠ 'i' := by decide
+  rcases h with rfl | rfl <;> simp [stripCI, a1, a2, a3, a4]
+
+theorem ieee_float_language (s : List Char) : ieeeFloatAst.Accepts s ↔ IsIeeeFloat s := by
+  rw [ieee_sim.accepts_iff, accepts_signOpt _ ieee_noSign]
+  unfold IsIeeeFloat
+  simp only [ieee_body_language]
+
+example : ieeeFloatAst.Accepts "-12.5E+3".toList := by decide +kernel
+example : ieeeFloatAst.Accepts "NaN".toList := by decide +kernel
+example : IsIeeeFloat "-iNfInItY".toList := (ieee_float_language _).1 (by decide +kernel)
+example : IsIeeeFloat "+inf".toList := ⟨['+'], ['i', 'n', 'f'], by decide, Or.inr ⟨'+', Or.inl rfl, rfl⟩, Or.inr (Or.inr (Or.inl (by decide)))⟩
+example : ¬ IsIeeeFloat "infinit".toList := fun h => absurd ((ieee_float_language _).2 h) (by decide +kernel)
+example : ¬ IsIeeeFloat "nan1".toList := fun h => absurd ((ieee_float_language _).2 h) (by decide +kernel)
+example : ¬ IsIeeeFloat ".5".toList := fun h => absurd ((ieee_float_language _).2 h) (by decide +kernel)
+example : ¬ IsIeeeFloat "1e".toList := fun h => absurd ((ieee_float_language _).2 h) (by decide +kernel)
 
 end PP.C18
